@@ -3,7 +3,6 @@ use crate::cx::*;
 use crate::gen::*;
 use crate::glue::*;
 use crate::prop::*;
-use crate::spec::*;
 use rl2tp::avp::AVP;
 use rl2tp::common::{SliceReader, VecWriter};
 use serde_json::{json, Value};
